@@ -445,9 +445,39 @@ def run_doc_case(case, bases, base_cache):
             if not single['esc'] and missing:
                 fail('recorded', 'the %s recorded for %s alone is not recorded when an instance_node later in the same '
                                  'top-level node never resolves: errors %s' % (missing, F.site_label(case['faults'][0]), full['err_names']))
+        # ---- clause: two faults in objects that do not depend on each other are both reported: what each records
+        # alone is recorded when both are present, and ignoring only the classes of the first still aborts on the second
+        if len(case['faults']) == 2 and all('elem' in f for f in case['faults']) and not full['esc'] \
+                and not case.get('recorded_before_deferral'):
+            root2 = F.parse(text)
+            els2 = F.elements(root2)
+            ka = F.item_key_of(root2, els2[case['faults'][0]['elem']])
+            kb = F.item_key_of(root2, els2[case['faults'][1]['elem']])
+            if ka is not None and kb is not None and ka != kb \
+                    and kb not in F.affected_items(root2, [els2[case['faults'][0]['elem']]]) \
+                    and ka not in F.affected_items(root2, [els2[case['faults'][1]['elem']]]):
+                import collections
+                sa = load(F.apply_faults(text, case['faults'][:1]), [K['DaeError']])
+                sb = load(F.apply_faults(text, case['faults'][1:]), [K['DaeError']])
+                if not sa['esc'] and not sb['esc']:
+                    # (class-wise, not count-wise: both faults may break the same dependent object, which then fails once)
+                    need = set(sa['err_names']) | set(sb['err_names'])
+                    missing = [n for n in sorted(need) if n not in full['err_names']]
+                    if missing:
+                        fail('recorded', 'two independent faults (%s): alone they record %s and %s, together only %s - a %s is lost'
+                             % (label, sa['err_names'], sb['err_names'], full['err_names'], missing[0]))
+                    acls = sorted(set(sa['err_names']))
+                    late = [n for n in sb['err_names'] if n not in acls and not any(issubclass(K[n], K[a_]) for a_ in acls)]
+                    if acls and late and all(a_ in K for a_ in acls):
+                        part = load(F.apply_faults(text, case['faults']), [K[a_] for a_ in acls])
+                        if not part['esc']:
+                            fail('unlisted-aborts', 'with ignore=%s (the classes of the first fault) the second, independent fault (%s) '
+                                                    'no longer aborts the load: errors %s' % (acls, late, part['err_names']))
         # ---- clause: a name defined in another scope is dangling
         if len(case['faults']) == 1 and case['faults'][0]['kind'] == 'crossref':
-            for what in scope_leak_problems(text, case['faults'][0], K):
+            for what in scope_leak_problems(text, case['faults'][0], K,
+                                            how='defined, but as something else than what is referenced,'
+                                            if case['faults'][0].get('wrongkind') else 'defined only in another scope'):
                 fail('scope-leak', what)
         # ---- clause: a reference that is not '#'+id is never resolved through its fragment
         if len(case['faults']) == 1 and case['faults'][0]['kind'] == 'extref' and not case['faults'][0].get('empty'):
